@@ -22,8 +22,8 @@ func init() {
 		Rule: "E1 over token lists: statement trees (module header + sequences of body statements from an 11-item menu (one with a multi-line double-quoted argument whose value depends on the quote column, followed also by comments that repeat its raw text), containers nested to depth 3) are rendered from a token list while the generator records keyword, decoded argument, nesting and the line/column of every keyword; at every token boundary every trivia variant (nothing where legal, blank, tab, LF, CRLF, block comment, line comment) is inserted, one boundary at a time (two at a time in the thorough tier), and every argument is re-quoted (unquoted, single, double, '+' concatenation split at every position). " +
 			"The walk of Tree.Root via Children()/Statement()/Argument()/ErrorContext() must equal the generator's expectation exactly. Non-trivial = the variant contains a comment, a line break or a re-quoted argument.",
 		Bound: map[string]string{
-			"quick":    "all trees with <=2 body statements (containers with <=2 children, depth <=3) x every boundary x 7 trivia variants; all re-quotings",
-			"thorough": "<=3 body statements, two boundaries at a time on the 2-statement trees",
+			"quick":    "all trees with <=2 body statements (containers with <=2 children, depth <=3) x every boundary x 7 trivia variants; all re-quotings; two concurrent Parse calls on 6 pairs of texts: the first 300 schedules (DFS order, preemption bound 1) per pair - capped, not exhaustive",
+			"thorough": "<=3 body statements, two boundaries at a time on the 2-statement trees; concurrent pairs: first 20000 schedules per pair (capped)",
 		},
 		Assumptions: []string{"columns are 0-based byte offsets in the line, lines 1-based (the convention of Tree.ErrorContextPosition)"},
 	})
@@ -282,6 +282,7 @@ func module(body []*st) *st {
 }
 
 func run(c *engine.Ctx) {
+	runConcurrent(c)
 	// tree set
 	var trees []*st
 	m0 := menu(0)
@@ -425,6 +426,9 @@ func run(c *engine.Ctx) {
 }
 
 func replay(c *engine.Ctx, sub string, raw json.RawMessage) []engine.Violation {
+	if sub == "concurrent" {
+		return replayConcurrent(raw)
+	}
 	var r rec
 	if json.Unmarshal(raw, &r) != nil {
 		return []engine.Violation{{Key: "harness-bad-replay-file"}}
